@@ -677,11 +677,21 @@ func ConvertToSameType(leftType, rightType interface{}) (interface{}, interface{
 	}
 
 	var err error
+	var converted interface{}
 
+	// a failed conversion returns the zero value next to the error; keep the
+	// original value in that case, so that the string fallback compares the
+	// values that were given and not a zero
 	if unsafe.Sizeof(leftType) > unsafe.Sizeof(rightType) {
-		rightType, err = ConvertExpToType(rightType, leftType)
+		converted, err = ConvertExpToType(rightType, leftType)
+		if err == nil {
+			rightType = converted
+		}
 	} else {
-		leftType, err = ConvertExpToType(leftType, rightType)
+		converted, err = ConvertExpToType(leftType, rightType)
+		if err == nil {
+			leftType = converted
+		}
 	}
 
 	if err != nil {
